@@ -504,11 +504,14 @@ Fixpoint tagged (fuel : nat) : tagged_fn :=
   end.
 
 (* WKTReader::read: one tagged geometry, then end of input *)
-Definition parse (ts : list token) : option geom :=
-  match tagged (S (List.length ts)) flagsXY None ts with
+Definition parse_fuel (n : nat) (ts : list token) : option geom :=
+  match tagged n flagsXY None ts with
   | Some (g, []) => Some g
   | _ => None
   end.
+
+(* fuel: three units per token are enough for every text the writer produces (WktProofs.print_tokens_fuel) *)
+Definition parse (ts : list token) : option geom := parse_fuel (3 * List.length ts) ts.
 
 Definition parse_string (s : str) : option geom := parse (tokenize (S (List.length s)) s).
 
